@@ -16,7 +16,44 @@ import (
 var faultGen = txh.GenOpts{KeyDomain: 8, MaxOps: 8, MaxTxns: 4, BigValues: false, Rollbacks: false, Placements: []int{0, 0, 1, 2, 3, 4}, MaxStores: 2}
 
 // genFaultHistory draws a history whose last transaction is a committing writer (the victim).
+// genRestructuringHistory: a store with slot length 2 and 6-12 keys; the victim removes a run of adjacent keys
+// (leaves get emptied: removed nodes) AND adds a run of new keys next to each other (splits: added nodes), plus
+// maybe an update - so that its commit goes through every kind of node step.
+func genRestructuringHistory(t *rapid.T) txh.History {
+	h := txh.History{HashMod: rapid.SampledFrom([]int{1, 3, 16}).Draw(t, "hashMod"), UUIDSeed: rapid.Uint64().Draw(t, "uuidSeed"),
+		Stores: []txh.StoreOpts{{Name: "st0", Slot: rapid.SampledFrom([]int{2, 2, 4}).Draw(t, "slot"), Unique: true, Placement: rapid.SampledFrom([]int{0, 0, 1, 3, 4}).Draw(t, "placement")}}}
+	nk := rapid.IntRange(6, 12).Draw(t, "keys")
+	var seed []txh.Op
+	for k := 0; k < nk; k++ {
+		seed = append(seed, txh.Op{Kind: "add", K: 10 * k, Tag: fmt.Sprintf("s%d", k), Size: 1})
+	}
+	h.Txns = append(h.Txns, txh.TxnProg{Mode: sop.ForWriting, End: "commit", Ops: seed})
+	var ops []txh.Op
+	from := rapid.IntRange(0, nk-3).Draw(t, "from")
+	to := rapid.IntRange(from+1, nk-1).Draw(t, "to")
+	for k := from; k <= to; k++ {
+		ops = append(ops, txh.Op{Kind: "remove", K: 10 * k})
+	}
+	base := 10*rapid.IntRange(0, nk-1).Draw(t, "addNear") + 1
+	for i, n := 0, rapid.IntRange(2, 6).Draw(t, "adds"); i < n; i++ {
+		ops = append(ops, txh.Op{Kind: "add", K: base + i, Tag: fmt.Sprintf("v.add%d", i), Size: 10})
+	}
+	if to < nk-1 && rapid.Bool().Draw(t, "alsoUpdate") {
+		ops = append(ops, txh.Op{Kind: "update", K: 10 * (nk - 1), Tag: "v.upd", Size: 10})
+	}
+	if rapid.Bool().Draw(t, "addsFirst") {
+		for i, j := 0, len(ops)-1; i < j; i, j = i+1, j-1 {
+			ops[i], ops[j] = ops[j], ops[i]
+		}
+	}
+	h.Txns = append(h.Txns, txh.TxnProg{Mode: sop.ForWriting, End: "commit", Ops: ops})
+	return h
+}
+
 func genFaultHistory(t *rapid.T, g txh.GenOpts) txh.History {
+	if rapid.IntRange(0, 3).Draw(t, "restructuringVictim") == 0 {
+		return genRestructuringHistory(t)
+	}
 	h := txh.GenHistory(t, g)
 	last := &h.Txns[len(h.Txns)-1]
 	last.Mode = sop.ForWriting
